@@ -1,5 +1,6 @@
 """C17 — pointers set for a test are restored; plugin actions nest. DESIGN.md section 4, C17."""
 import re
+import itertools
 from .common import *
 from cpv.graph import field_writers
 from .shared import plugin_chain_order
@@ -139,50 +140,95 @@ def check(ctx, run):
     plugin_chain_order(prog, run, "R3")
     ip = prog.fn("TestRegistry::installPlugin")
     run.analysed(ip)
-    a = [(l, render(ip, r)) for l, r, n in assignments(ip)]
-    run.ob("R3", "installPlugin inserts at the head of the chain", ip.site, a == [("firstPlugin_", "%s->addPlugin(firstPlugin_)" % ip.params[0]["name"])], witness=a)
+    TPINL = {g.qn for g in prog.functions.values() if g.qn.startswith("TestPlugin::")}
+    try:
+        ev = Evaluator(prog, ip, env={"firstPlugin_": 5000, ip.params[0]["name"]: 8000, "@8000.next_": 777, "@5000.next_": 6000})
+        ev.heap_mode = True
+        ev.inline = TPINL
+        ev.run_blocks(ip.entry, max_steps=300)
+        got = (ev.env.get("firstPlugin_"), ev.env.get("@8000.next_"), ev.env.get("@5000.next_"))
+    except Unknown as u:
+        got = "unknown: %s" % u
+    run.ob("R3", "installPlugin inserts at the head of the chain", ip.site, got == (8000, 5000, 6000), witness={"(first plugin, its next_, old head's next_)": got},
+           what="" if got == (8000, 5000, 6000) else "the installed plugin does not become the first plugin with the old chain behind it")
     ap = prog.fn("TestPlugin::addPlugin")
-    a = [(l, render(ap, r)) for l, r, n in assignments(ap)]
-    rets = [render(ap, ap.node(n.get("value"))) for n in ap.walk() if n["k"] == "ReturnStmt"]
-    run.ob("R3", "addPlugin links the given chain behind this plugin and returns this", ap.site, a == [("next_", ap.params[0]["name"])] and rets == ["this"], witness={"assign": a, "returns": rets})
+    run.analysed(ap)
+    try:
+        ev = Evaluator(prog, ap, env={"this": 8000, "next_": 777, ap.params[0]["name"]: 5000})
+        ev.heap_mode = True
+        ev.run_blocks(ap.entry, max_steps=200)
+        got = (getattr(ev, "ret", None), ev.env.get("next_"))
+    except Unknown as u:
+        got = "unknown: %s" % u
+    run.ob("R3", "addPlugin links the given chain behind this plugin and returns this", ap.site, got == (8000, 5000), witness={"(returns, next_)": got})
     for fn_, post in (("UtestShell::runOneTestInCurrentProcess", None),):
         f = prog.fn(fn_)
         cs = [render(f, c) for c in f.calls() if render(f, c).startswith("plugin->runAll")]
         run.ob("R3", "the runner passes this test and its result to both chain walkers", f.site, cs == ["plugin->runAllPreTestAction(*this, result)", "plugin->runAllPostTestAction(*this, result)"], witness=cs)
 
     # ---------------- R5 ----------------------------------------------------
-    for meth in ("getPluginByName", "removePluginByName"):
-        f = prog.fn("TestPlugin::" + meth)
-        run.analysed(f)
-        pn = f.params[0]["name"]
-        ok = True
-        wit = []
-        for p in enumerate_paths(f):
-            val = p.val()
-            names = [render(f, c) for c in path_calls(prog, f, p)]
-            deleg = [n for n in names if n == "next_->%s(%s)" % (meth, pn)]
-            matched_here = any(v for k, v in val.items() if "==" in k and "name" in k.lower())
-            has_next = val.get("next_")
-            wit.append({"path": p.describe(f), "delegates": len(deleg)})
-            if not matched_here and has_next is True and len(deleg) != 1:
-                ok = False
-            if matched_here and deleg:
-                ok = False
-        run.ob("R5", "%s delegates along next_ whenever it does not handle the request itself" % meth, f.site, ok, witness=wit,
-               what="" if ok else "a plugin further down the chain is never examined")
+    CH = {"A": 5000, "B": 6000, "C": 7000, "NullPlugin": 9000}
+
+    def chain3(names=("A", "B", "C", "NullPlugin")):
+        env = {}
+        for i_, nm in enumerate(names):
+            env["@%d.name_" % CH[nm]] = ("str", nm)
+            env["@%d.next_" % CH[nm]] = CH[names[i_ + 1]] if i_ + 1 < len(names) else 0
+            env["@%d.enabled_" % CH[nm]] = 1
+        env.update({"this": CH[names[0]], "name_": ("str", names[0]), "next_": env["@%d.next_" % CH[names[0]]], "enabled_": 1})
+        return env
+    gp = prog.fn("TestPlugin::getPluginByName")
+    run.analysed(gp)
+    bad = None
+    try:
+        for names in (("A", "B", "C", "NullPlugin"), ("A", "NullPlugin"), ("NullPlugin",)):
+            for target in ("A", "B", "C", "NullPlugin", "none"):
+                env = chain3(names)
+                env[gp.params[0]["name"]] = ("str", target)
+                ev = Evaluator(prog, gp, env=env, calls=string_hooks())
+                ev.heap_mode = True
+                ev.pass_object = True
+                ev.inline = TPINL
+                ev.run_blocks(gp.entry, max_steps=2000)
+                r = getattr(ev, "ret", None)
+                want = CH[target] if target in names else 0
+                if r != want and bad is None:
+                    bad = "chain %s, asking for %r: returns %s, expected %s" % (list(names), target, r, want)
+    except Unknown as u:
+        bad = "the walk cannot be folded: %s" % u
+    run.ob("R5", "getPluginByName folded over chains of 1..4 plugins x every name: the plugin of that name wherever it stands, NULL when there is none", gp.site, bad is None, witness=bad or "15 cases",
+           what="" if bad is None else "a plugin further down the chain is never examined: " + bad)
     pa = [f for f in prog.fns("TestPlugin::parseAllArguments") if "const char *const *" in f.d["sig"]][0]
     run.analysed(pa)
-    ok = True
-    for p in enumerate_paths(pa):
-        val = p.val()
-        own = [v for k, v in val.items() if k.startswith("parseArguments(")]
-        names = [render(pa, c) for c in path_calls(prog, pa, p)]
-        deleg = [n for n in names if n.startswith("next_->parseAllArguments(")]
-        if own == [False] and val.get("next_") is True and len(deleg) != 1:
-            ok = False
-        if own == [True] and deleg:
-            ok = False
-    run.ob("R5", "parseAllArguments delegates along next_ whenever its own parser declines", pa.site, ok)
+    bad = None
+    try:
+        for pattern in itertools.product((0, 1), repeat=3):
+            asked = []
+            answers = dict(zip((5000, 6000, 7000), pattern))
+
+            def own(ev_, *a_):
+                o = ev_.env.get("this")
+                asked.append((o,) + tuple(a_[-3:]))
+                return answers.get(o, 0)
+            own.wants_ev = True
+            env = chain3()
+            env.update(dict(zip([q["name"] for q in pa.params], (4, ("ptr", "AV", 0), 2))))
+            ev = Evaluator(prog, pa, env=env, calls={"TestPlugin::parseArguments": own, "NullTestPlugin::parseArguments": own})
+            ev.heap_mode = True
+            ev.pass_object = True
+            ev.dyn_type = {5000: "TestPlugin", 6000: "TestPlugin", 7000: "TestPlugin", 9000: "NullTestPlugin"}
+            ev.inline = {g.qn for g in prog.functions.values() if g.qn.startswith(("TestPlugin::", "NullTestPlugin::"))} - set(ev.calls)
+            ev.run_blocks(pa.entry, max_steps=2000)
+            r = getattr(ev, "ret", None)
+            first = next((i_ for i_, v in enumerate(pattern) if v), None)
+            want_asked = [5000, 6000, 7000][:first + 1] if first is not None else [5000, 6000, 7000, 9000]
+            got_asked = [x[0] for x in asked]
+            if (r != (1 if first is not None else 0) or got_asked[:3] != want_asked[:3] or any(x[1:] != (4, ("ptr", "AV", 0), 2) for x in asked)) and bad is None:
+                bad = "plugins answering %s: returns %s after asking %s; expected %d after asking %s with the caller's (ac, av, index)" % (list(pattern), r, got_asked, 1 if first is not None else 0, want_asked)
+    except Unknown as u:
+        bad = "the walk cannot be folded: %s" % u
+    run.ob("R5", "parseAllArguments folded over a chain of 3 plugins x 8 answer patterns: every plugin is asked in chain order until one accepts; accepted iff one accepts", pa.site, bad is None, witness=bad or "8 patterns",
+           what="" if bad is None else "a plugin further down the chain is never asked, or asked after another accepted: " + bad)
     rm = prog.fn("TestPlugin::removePluginByName")
     rr = prog.fn("TestRegistry::removePluginByName")
     run.analysed(rm)
